@@ -254,6 +254,11 @@ class TTElement(TTMLElement):
       if has_px:
         break
 
+    for model_style_prop, initial_value in model_doc.iter_initial_values():
+      if StyleProperties.BY_MODEL_PROP[model_style_prop].has_px(initial_value):
+        has_px = True
+        break
+
     if model_doc.get_px_resolution() is not None and has_px:
       imsc_attr.ExtentAttribute.set(tt_element, model_doc.get_px_resolution())
 
